@@ -29,7 +29,7 @@ META = {
     'design_ref': 'DESIGN.md section 6/C02',
 }
 
-NAMES = {'C02_CommittedSurvives', 'C02_NoDivergence', 'C02_HWBacked', 'HWMonotoneWhileUp'}
+NAMES = {'C02_CommittedSurvives', 'C02_NoDivergence', 'C02_HWBacked', 'HWMonotoneWhileUp', 'C01_ReplicaGapFree'}
 
 
 def relevant(b):
